@@ -388,13 +388,20 @@ def run_core(scn, want=("c01", "c02", "c03", "c04", "c05", "c06")):
     L = service_latency(tb, postponing)
     t_ = tb.timing
     ps_ = tb.phy_settings
-    if B == "auto":
-        wl_sys = math.ceil((ps_.cwl or 0) / ps_.nphases)
-        tcmd = (t_.tRP + t_.tRCD + (t_.tRAS or 0) + (t_.tRC or 0) + (t_.tFAW or 0) + ps_.read_latency + t_.tWTR + wl_sys + (t_.tCCD or 0)
-                + t_.tWR + ps_.write_latency)
-        B = 4 * (len(tb.ports) * (tb.ctrl.get("cmd_buffer_depth", 8) + 2) * tcmd + tb.ctrl.get("read_time", 32) + tb.ctrl.get("write_time", 16)
+    wl_sys = math.ceil((ps_.cwl or 0) / ps_.nphases)
+    tcmd = (t_.tRP + t_.tRCD + (t_.tRAS or 0) + (t_.tRC or 0) + (t_.tFAW or 0) + ps_.read_latency + t_.tWTR + wl_sys + (t_.tCCD or 0)
+            + t_.tWR + ps_.write_latency)
+    Bauto = 4 * (len(tb.ports) * (tb.ctrl.get("cmd_buffer_depth", 8) + 2) * tcmd + tb.ctrl.get("read_time", 32) + tb.ctrl.get("write_time", 16)
                  + postponing * (t_.tRP + t_.tRFC))
+    if B == "auto":
+        B = Bauto
     bound = B
+    # progress watchdog: a run in which no master makes any progress for this many sys cycles while work is outstanding is a hang;
+    # it only shortens runs that would otherwise spin to the cycle cap (several times the bounded-liveness bound of C05, plus the
+    # longest deliberate master delay)
+    stall_cap = scn.get("limits", {}).get("stall_cap", max(8000, 4 * Bauto))
+    last_prog = None
+    last_prog_cyc = 0
     if scn.get("limits", {}).get("run_for_bounds"):
         # bounded-liveness runs last run_for_bounds * B cycles so an unbounded wait is distinguishable from a long one
         cap_override = int(scn["limits"]["run_for_bounds"] * B) + 200
@@ -443,6 +450,13 @@ def run_core(scn, want=("c01", "c02", "c03", "c04", "c05", "c06")):
             for m in masters:
                 if (m.pend and cyc - m.pend[0] > bound) or (m.wpend and cyc - m.wpend[0] > bound):
                     waits["resp"] = max(waits["resp"], bound + 1)
+        if cyc % 64 == 0:
+            prog = tuple((m.ncmd, len(m.wq), m.reads_out, m.got[0]) for m in masters)
+            if prog != last_prog:
+                last_prog = prog
+                last_prog_cyc = cyc
+            elif cyc - last_prog_cyc > stall_cap and not all(m.idle() for m in masters) and not cap_override:
+                break
         if all(m.idle() for m in masters) or (until0 and masters[0].idle() and cyc >= until0):
             if quiet is None:
                 quiet = cyc
